@@ -9,6 +9,7 @@ import LccModel.Proto
 import LccModel.ProtoReport
 import LccModel.Model.RunAccept
 import LccModel.Model.RunOutcome
+import LccModel.Model.ProjectRun
 import LccModel.Model.Writer
 import LccModel.Model.Grammar
 open Lean LccModel LccModel.Proto LccModel.ProtoReport LccModel.Report LccModel.Run LccModel.RunAccept
@@ -159,7 +160,14 @@ def encTaskId (t : TaskId) : Json :=
     | .sessSetup => "sessSetup" | .sessTeardown => "sessTeardown" | .begin => "begin" | .init => "init"
     | .test => "test" | .teardown => "teardown" | .end_ => "end")), ("path", Json.arr (t.path.map Json.str).toArray)]
 
-def handle (j : Json) : Except String Json := do
+/-- the project-level entry point (`PreparedProject.run`, Model/ProjectRun.lean) for the hooks of the request
+    (`"project_hooks": {"pre": kind, "post": kind}`) and the outcome `o` of `run_suites`: "calls => outcome" -/
+def projectAnswer (ph : Json) (o : RunOutcome.Outcome) : Except String Json := do
+  let pre ← (← field ph "pre").getStr?
+  let post ← (← field ph "post").getStr?
+  pure (Json.str (ProjectRun.render (ProjectRun.run (ProjectRun.Hook.ofName pre) (ProjectRun.Hook.ofName post) o)))
+
+def handleRun (j : Json) : Except String Json := do
   let P ← decProj (← field j "project")
   let gts ← (← (← field (← field j "graph") "tasks").getArr?).toList.mapM decGTask
   let recs ← (← (← field j "trace").getArr?).toList.mapM decRec
@@ -204,6 +212,8 @@ def handle (j : Json) : Except String Json := do
       match st.sched.result t with
       | some .success => "success" | some .failure => "failure" | some .skipped => "skipped"
       | some .exception => "exception" | none => Json.null])
+  -- `run_suites` raised the errors of its own pre_run-fixture loops (Model/PreRun.lean `raisedErrors`; observed fact)
+  let ownErrors := match fieldOpt j "run_errors" with | .bool b => b | _ => false
   pure (Json.mkObj [
     ("graph_ok", Json.bool graphOk), ("graph_diff", graphDiff), ("wf", Json.bool wf),
     ("accepted", Json.num i), ("reject", match reject with | none => Json.null | some r => Json.str r),
@@ -215,6 +225,22 @@ def handle (j : Json) : Except String Json := do
     ("grammar_sequential", Json.bool (Grammar.run .seq Grammar.init firedG).isSome),
     ("report", rep),
     ("any_failed", Json.bool st.defF.failed),
+    ("project", ← (match fieldOpt j "project_hooks" with
+      | .null => pure Json.null
+      | ph => projectAnswer ph (if ownErrors then .raisedInternal else RunOutcome.outcome {
+          interrupted := st.defF.interrupted,
+          taskException := (List.range k).any (fun t => match st.sched.result t with | some .exception => true | _ => false),
+          pending := if st.defF.pending || st.startedEff.pending then some "T" else none,
+          successful := !st.defF.failed }))),
     ("pre_run", Json.arr (preRunFixtures P |>.map Json.str).toArray)])
+
+/-- a run that never reached `run_tasks` (`"project_only": true`: pre_run failed) is answered from the hooks alone -/
+def handle (j : Json) : Except String Json := do
+  match fieldOpt j "project_only" with
+  | .bool true => do
+    let ownErrors := match fieldOpt j "run_errors" with | .bool b => b | _ => false
+    let a ← projectAnswer (← field j "project_hooks") (if ownErrors then .raisedInternal else .returned true)
+    pure (Json.mkObj [("project", a)])
+  | _ => handleRun j
 
 def main : IO Unit := loop (wrap handle)
